@@ -12,3 +12,47 @@ pub fn subsidy(h: u64) -> u64 {
   let e = h / HALVING;
   if e >= 64 { 0 } else { (50 * COIN) >> e }
 }
+
+pub const SUBSIDY_HEIGHTS: u64 = 33 * HALVING; // 6 930 000 heights carry a subsidy
+
+/// first sat of halving epoch e: 210 000 blocks of each earlier subsidy.
+pub fn epoch_start(e: u64) -> u64 {
+  let mut sum: u64 = 0;
+  let mut i: u64 = 0;
+  while i < 33 {
+    if i < e {
+      sum += HALVING * ((50 * COIN) >> i);
+    }
+    i += 1;
+  }
+  sum
+}
+
+/// first sat mined at height h, given its epoch e == h / HALVING (closed form).
+pub fn first_sat_e(e: u64, h: u64) -> u64 {
+  if e >= 33 { epoch_start(33) } else { epoch_start(e) + (h - e * HALVING) * ((50 * COIN) >> e) }
+}
+
+/// first sat mined at height h: sum of all earlier subsidies.
+pub fn first_sat(h: u64) -> u64 {
+  first_sat_e(h / HALVING, h)
+}
+
+/// rarity as documented (docs/src/overview.md): a function of height and offset only.
+/// 0 common, 1 uncommon, 2 rare, 3 epic, 4 legendary, 5 mythic
+pub fn rarity_code(h: u64, o: u64) -> u8 {
+  if o != 0 {
+    0
+  } else if h == 0 {
+    5
+  } else if h % (6 * HALVING) == 0 {
+    // first sat of a cycle: halving and difficulty adjustment coincide every 6 halvings
+    4
+  } else if h % HALVING == 0 {
+    3
+  } else if h % 2016 == 0 {
+    2
+  } else {
+    1
+  }
+}
